@@ -86,6 +86,30 @@ func canon(e ast.Expr, defs map[string]string) string {
 	return b.String()
 }
 
+// stripLogs removes log-call statements from every statement list below n (in place).
+func stripLogs(n ast.Node) {
+	filter := func(l []ast.Stmt) []ast.Stmt {
+		var out []ast.Stmt
+		for _, s := range l {
+			if !isLog(s) {
+				out = append(out, s)
+			}
+		}
+		return out
+	}
+	ast.Inspect(n, func(x ast.Node) bool {
+		switch b := x.(type) {
+		case *ast.BlockStmt:
+			b.List = filter(b.List)
+		case *ast.CaseClause:
+			b.Body = filter(b.Body)
+		case *ast.CommClause:
+			b.Body = filter(b.Body)
+		}
+		return true
+	})
+}
+
 func isLog(s ast.Stmt) bool {
 	es, ok := s.(*ast.ExprStmt)
 	if !ok {
@@ -95,7 +119,12 @@ func isLog(s ast.Stmt) bool {
 	if !ok {
 		return false
 	}
-	return strings.Contains(show(c.Fun), "logger.")
+	sel, ok := c.Fun.(*ast.SelectorExpr)
+	if !ok {
+		return false
+	}
+	x := show(sel.X)
+	return strings.HasSuffix(x, "logger") || strings.HasSuffix(x, "Logger")
 }
 
 func hasCall(e ast.Expr, name string) bool {
@@ -114,6 +143,7 @@ func hasCall(e ast.Expr, name string) bool {
 // flatten turns a function body into canonical significant statements.
 func flatten(body *ast.BlockStmt, defs map[string]string, effectCalls []string) []string {
 	var out []string
+	stripLogs(body)
 	for _, st := range body.List {
 		if isLog(st) {
 			continue
@@ -127,6 +157,10 @@ func flatten(body *ast.BlockStmt, defs map[string]string, effectCalls []string) 
 						effect = true
 					}
 				}
+			}
+			if fl, ok := s.Rhs[0].(*ast.FuncLit); ok && s.Tok == token.DEFINE && len(s.Lhs) == 1 {
+				out = append(out, "closure "+show(s.Lhs[0])+" "+show(fl.Body)) // a local closure's body is a fact too
+				continue
 			}
 			if s.Tok == token.DEFINE && len(s.Rhs) == 1 {
 				rhs := canon(s.Rhs[0], defs)
@@ -341,7 +375,7 @@ var loadPartyTable = map[string]string{
 // createParty: the composite literal is long; recognised by its frame
 func isCreateParty(c string) bool {
 	return strings.HasPrefix(c, "if &SignParty{") && strings.Contains(c, ".Start() == nil {set p.partyManager[common.ToHex(keyBytes)] = &SignParty{") &&
-		strings.Contains(c, "; go{waitUntilDone}; return &SignParty{") && strings.HasSuffix(c, "else {{ p.logger.Errorf(\"fail to start party, %s\", err) return nil }}")
+		strings.Contains(c, "; go{waitUntilDone}; return &SignParty{") && strings.HasSuffix(c, "else {{ return nil }}")
 }
 
 func steps(fd *ast.FuncDecl, table map[string]string, effects []string, dump bool) []string {
@@ -503,6 +537,27 @@ func startRecovers(piece string) bool {
 	return false
 }
 
+// lruCaps: the integer literals of `p.<field> = common.CreateLRUCache(<n>)` in Processor.Init.
+func lruCaps(path string) map[string]string {
+	out := map[string]string{"finishedParty": "0", "futureMessages": "0"}
+	fd := findFunc(path, "Processor", "Init")
+	ast.Inspect(fd.Body, func(n ast.Node) bool {
+		as, ok := n.(*ast.AssignStmt)
+		if !ok || len(as.Lhs) != 1 || len(as.Rhs) != 1 {
+			return true
+		}
+		sel, ok := as.Lhs[0].(*ast.SelectorExpr)
+		call, ok2 := as.Rhs[0].(*ast.CallExpr)
+		if ok && ok2 && strings.HasSuffix(show(call.Fun), "CreateLRUCache") && len(call.Args) == 1 {
+			if _, want := out[sel.Sel.Name]; want {
+				out[sel.Sel.Name] = show(call.Args[0])
+			}
+		}
+		return true
+	})
+	return out
+}
+
 func leanStrs(xs []string) string {
 	var p []string
 	for _, x := range xs {
@@ -563,6 +618,23 @@ func main() {
 	fmt.Printf("def genGroupSignSteps : List GStep := %s\n\n", leanList(gg))
 	fmt.Println("/-- `Processor.loadOrNewSignParty` (routing, parking of messages that have no party yet, party creation) -/")
 	fmt.Printf("def loadPartySteps : List PStep := %s\n\n", leanList(lp))
+	// canonical statement lists of the remaining handlers on the path, and the constants they use
+	canon := func(file, recv, name string) []string {
+		return flatten(findFunc(filepath.Join(dir, file), recv, name).Body, map[string]string{}, nil)
+	}
+	fmt.Println("/-- canonical statements (locals substituted, log calls and error texts dropped) -/")
+	fmt.Printf("def partyUpdateCanon : List String := %s\n\n", leanStrs(canon("party.go", "baseParty", "Update")))
+	fmt.Printf("def storeMessageCanon : List String := %s\n\n", leanStrs(canon("party.go", "baseParty", "StoreMessage")))
+	fmt.Printf("def canAccept0Canon : List String := %s\n\n", leanStrs(canon("round_sign.go", "round0", "CanAccept")))
+	fmt.Printf("def canAccept1Canon : List String := %s\n\n", leanStrs(canon("round_sign_piece.go", "round1", "CanAccept")))
+	fmt.Printf("def canAccept2Canon : List String := %s\n\n", leanStrs(canon("round_sign_finalizer.go", "round2", "CanAccept")))
+	fmt.Printf("def nextRound1Canon : List String := %s\n\n", leanStrs(canon("round_sign_piece.go", "round1", "NextRound")))
+	fmt.Printf("def onMessageVerifyCanon : List String := %s\n\n", leanStrs(canon("processor_party.go", "Processor", "OnMessageVerify")))
+	fmt.Printf("def waitUntilDoneCanon : List String := %s\n\n", leanStrs(canon("processor_party.go", "Processor", "waitUntilDone")))
+	caps := lruCaps(filepath.Join(dir, "processor.go"))
+	fmt.Println("/-- `Processor.Init`: capacities of `finishedParty` and `futureMessages` -/")
+	fmt.Printf("def finishedCap : Nat := %s\n", caps["finishedParty"])
+	fmt.Printf("def futureCap : Nat := %s\n\n", caps["futureMessages"])
 	fmt.Println("/-- `SignInfo.VerifySign` -/")
 	fmt.Printf("def verifySignSteps : List VStep := %s\n\n", leanList(vs))
 	srcRoot := filepath.Join(dir, "..", "..")
